@@ -683,7 +683,12 @@ class MetadataManager:
                 return None
         m = _METADATA_FILE_RE.match(text)
         if m:
-            return int(m.group(1)), text
+            # \d also matches digits int() rejects, and int() refuses very long
+            # digit strings: same garbage as above, in the v<N>-... spelling.
+            try:
+                return int(m.group(1)), text
+            except ValueError:
+                return None
         return None
 
     def _read_version_hint(self) -> Optional[Tuple[int, str]]:
@@ -718,7 +723,10 @@ class MetadataManager:
             m = _METADATA_FILE_RE.match(basename)
             if not m:
                 continue
-            version = int(m.group(1))
+            try:
+                version = int(m.group(1))
+            except ValueError:
+                continue  # a stray file whose "version" is not a usable number
             if best is None or version > best[0]:
                 best = (version, basename)
                 try:
